@@ -25,7 +25,7 @@ from symx import core
 from symx.core import Ctx, Stats, explore, Inconclusive, Unsupported, PathLimit, SymBool, SymReal
 from . import lib, runner, callsym
 
-ATOM_POOL = ["(p o1)", "(p o3)", "(p k)", "(q o1 o2)", "(q o2 o2)", "(q o3 k)", "(r)", "(s u1)", "(m o3 o3)", "(m o3 o1)"]
+ATOM_POOL = ["(p o1)", "(p o3)", "(p k)", "(q o1 o2)", "(q o2 o2)", "(q o3 k)", "(r)", "(s u1)", "(m o3 o3)", "(m o3 o1)", "(ob u1)", "(un o3)", "(ob k)"]
 FLUENT_POOL = ["(f o1)", "(g)", "(h o2 o1)", "(h o1 o1)", "(f k)", "(f o3)", "(w3 o1 o1 o1)", "(w3 o1 o2 o3)"]
 GOALS = [
     [],
@@ -49,7 +49,10 @@ OBJECT_SETS = [dict(G.OBJECTS), {"o1": "t1", "o2": "t1", "o3": "t3", "u1": "t2",
                {"o1": "t1", "k": "t1", "o2": "t1", "o3": "t3", "u1": "t2"},
                {"k": "t3", "o1": "t1", "o2": "t1", "o3": "t3", "u1": "t2"}]
 DOMAIN_NAME = "uni-dom2"  # long enough to have proper prefixes, suffixes and extensions
-DOMAIN_TEXT = G.domain_text([("act", [], ["and"], ["and"])], const=True, name=DOMAIN_NAME)
+# two more predicates than the universe: one over the root type, one with an untyped parameter (any declared object conforms,
+# an undeclared name does not)
+DOMAIN_TEXT = G.domain_text([("act", [], ["and"], ["and"])], const=True, name=DOMAIN_NAME,
+                            extra_predicates=[["ob", "?o", "-", "object"], ["un", "?a"]])
 _N = [0]
 
 
